@@ -68,7 +68,7 @@ def rule_plugin(ck):
         ck.require(ok, "C19.R2", f, c, ok="connects only when a free station exists", bad="super().plugin is not guarded by `a free station exists`", sink="plugin:free-guard")
     for n in enq:
         s = n.stmt
-        ok = canon(s.targets[0].slice) == f"{ev}.session_id" and canon(s.value) == ev
+        ok = canon(fl.expand(s.targets[0].slice, n)) == f"{ev}.session_id" and canon(fl.expand(s.value, n)) == ev
         ck.require(ok, "C19.R1", f, s, ok="queued under its session id", bad="the waiting EV is not stored as waiting_queue[ev.session_id] = ev", sink="plugin:enqueue-key")
         ups = [(nn, cc) for nn, cc in calls_in(fl, "update_station_id") if cfg.dominates(nn, n) and dotted(cc.func.value) == ev]
         ok = bool(ups) and isinstance(ups[-1][1].args[0], ast.Constant) and ups[-1][1].args[0].value is None
@@ -243,7 +243,9 @@ def rule_simulator(ck):
         net = repo.fn("ChargingNetwork.unplug")
         b = bind_args(c, net, method=True)
         ev = pe.params[1]
-        ok = canon(b.get("station_id")) in (f"{ev}.ev.station_id", f"{ev}.station_id") and canon(b.get("session_id")) in (f"{ev}.ev.session_id", f"{ev}.session_id")
+        ok = b.get("station_id") is not None and b.get("session_id") is not None and \
+            canon(fl.expand(b["station_id"], n)) in (f"{ev}.ev.station_id", f"{ev}.station_id") and \
+            canon(fl.expand(b["session_id"], n)) in (f"{ev}.ev.session_id", f"{ev}.session_id")
         ck.require(ok, "C19.R7", pe, c, ok="(station id, session id) of the event's EV", bad="network.unplug is not called with the event EV's station and session ids", sink="sim:unplug-args")
     run = inline_helpers(repo, repo.fn("Simulator.run"))
     rl = flow_of(run)
